@@ -856,9 +856,10 @@ Definition is_hex_char (c : ascii) : bool :=
   (Nat.leb 48 n && Nat.leb n 57) || (Nat.leb 97 n && Nat.leb n 102).
 Definition is_hex : string -> bool := all_chars is_hex_char.
 
-(* an absolute path inside the staging directory: staging/x or staging/x/y
-   with x, y valid non-empty names *)
+(* an absolute path inside the staging directory: the directory itself,
+   staging/x or staging/x/y with x, y valid non-empty names *)
 Definition staging_ok (p : string) : bool :=
+  (p =? staging) ||
   match strip_prefix (staging ++ "/") p with
   | Some rest =>
     match split_slash rest with
@@ -1006,7 +1007,7 @@ Definition tree_world (root : string) (top : node) (p : prim) : answer :=
     else AFail
   | POpenAt h n dir =>
     match at_phys top (phys root h ++ [n])%list with
-    | Some (NDir _) => AOk
+    | Some (NDir _) => if dir then AOk else AFail   (* Directory.open's fstat check *)
     | Some NFile => if dir then AFail else AOk
     | _ => AFail
     end
@@ -1025,7 +1026,10 @@ Definition tree_world (root : string) (top : node) (p : prim) : answer :=
     | Some (NLink _ _) => ATarget ""
     | _ => AFail
     end
-  | PChoice _ => ABool true
+  | PChoice what =>
+    (* nothing is ignored, no digest is cached; every other decision goes the
+       way that continues the operation *)
+    ABool (negb ((what =? "ignored-or-invalid-name") || (what =? "digest-cached")))
   | _ => AFail
   end.
 
